@@ -103,6 +103,9 @@ bool Instance::parse_input_transaction(const char* txdata, int select_index) {
             txin_index = txin_vout_index = -1;
             return false;
         }
+        // the amount of the spent output is known now: it is what BIP143 / BIP341 digests commit to, also when the script to
+        // debug is given explicitly (configure_tx_txin, which used to fill it in, only runs when it is not)
+        if ((size_t)txin_index < amounts.size()) amounts[txin_index] = txin->vout[txin_vout_index].nValue;
     }
     return true;
 }
